@@ -544,7 +544,7 @@ func c16Body(c *core.Ctx) {
 		}
 		if !T && cm[1] == "ABCDEFGHIJKLMNOPQRSTUVWXY" {
 			// quick: the three-pipeline capacity case is explored by its default and probe schedules only
-			// (S3e v1 is this very call); the 41-digit case gets the full bound-0 exploration
+			// (S3e runs an alphanumeric capacity call of every version); the 41-digit case gets the full bound-0 exploration
 			continue
 		}
 		b := -1
@@ -562,7 +562,7 @@ func c16Body(c *core.Ctx) {
 	racePass(c)
 	c.R.Bound("S1", fmt.Sprintf("2 threads x degrees {1,2,3}^2 on GF(256) and GF(16), preemption bound %d (plus four 3-thread tuples at bound 1; thorough: all 3-thread tuples at bound 2); scheduling point before every statement of reedsolomon.go", b1))
 	c.R.Bound("S2", fmt.Sprintf("all unordered pairs (thorough: triples) of %v from cold package state, group-level policy, preemption bound %d", s2, b2))
-	c.R.Bound("S3", "every schedule (iterative bounding continued until no alternative is cut; pruning on an exact global state key: per-thread operation/value histories + channel and lock states): iterateModules on 9x9, 13x13 and the version-1 function-pattern matrix; encodeAlphaNumeric on all words <= 3 over {A,Z,:,a,é}; splitToBlocks(IterateBytes) for v1-L, v3-Q, v5-Q; eight whole qr.Encode calls (Numeric, AlphaNumeric, Unicode, Auto, two error-returning, two that fill version 1-L to within 3 bits of capacity; quick tier: Numeric and Auto only, with all non-preemptive schedules, preemption bound 0, plus the two error-returning calls with every schedule)")
+	c.R.Bound("S3", "every schedule (iterative bounding continued until no alternative is cut; pruning on an exact global state key: per-thread operation/value histories + channel and lock states): iterateModules on 9x9, 13x13 and the version-1 function-pattern matrix; encodeAlphaNumeric on all words <= 3 over {A,Z,:,a,é}; splitToBlocks(IterateBytes) for v1-L, v3-Q, v5-Q; eight whole qr.Encode calls (Numeric, AlphaNumeric, Unicode, Auto, two error-returning, two that fill version 1-L to within 3 bits of capacity; quick tier: Numeric, Auto and the 41-digit capacity call with all non-preemptive schedules, preemption bound 0, plus the two error-returning calls with every schedule; the 25-character alphanumeric capacity call is left to S3e, which runs an alphanumeric capacity call of every version)")
 	c.R.Bound("S3e", "one whole qr.Encode per version 1..40 under the scheduler: default schedule and three probe schedules each (no branching)")
 	c.R.Bound("S4", "free-running -race pass: {mixed, qr, rs} x goroutines {2,8,64}, {same: every operation of the alphabet in 2 or 8 goroutines at once} and {qrall: one symbol of each version 1..40} x GOMAXPROCS {1,2,4,16} (QR modes also 3,5,6,7), each in a fresh process; observations are also compared with a GOMAXPROCS=1 baseline process (detector, not enumeration)")
 	c.R.Sample(map[string]any{"harness": "S1 0 2 3", "meaning": "two threads call Encode(_,2) and Encode(_,3) on one fresh encoder; all interleavings of the statements of reedsolomon.go with <= bound preemptions; oracle: both results == reference remainder, cache == reference generators"})
@@ -579,7 +579,7 @@ func init() {
 		Assumptions: []string{
 			"preemption bounds as recorded in coverage.bounds; executions run to completion",
 			"unsynchronised accesses outside the instrumented statements are invisible to the cooperative scheduler and covered only by the free-running -race pass (S4), which samples schedules; weak memory orderings are not modelled",
-			"unbuffered channels are modelled as rendezvous; buffered channels, select, and sync primitives other than Mutex/RWMutex/WaitGroup/Once make the instrumenter fail loudly (exit 2)",
+			"unbuffered channels are modelled as rendezvous; buffered channels, select, and sync primitives other than Mutex/RWMutex/WaitGroup/Once/Pool/Map/Cond make the instrumenter fail loudly (exit 2)",
 		}})
 }
 
